@@ -53,7 +53,15 @@ def gen_cases(tier, seed):
             t = " ".join(r.choice(T.SOUP_TOKENS) for _ in range(r.randrange(1, 5)))
         if len(t.split()) <= 6 and len(t) <= 40:
             cases.append({"t": t, "ts": r.choice(["2021-03-10T12:43:30", "2020-02-29T23:59:00", "2019-12-31T08:00:00"])})
-    return cases
+    # #labels inside and around the text, and runs of blanks: the search works on the text with the labels cut out
+    extra = []
+    for c in cases[::5]:
+        toks = c["t"].split(" ")
+        if len(toks) >= 2:
+            i = r.randrange(1, len(toks))
+            extra.append({"t": " ".join(toks[:i] + [r.choice(["#work", "#x-1", "#a #b"])] + toks[i:]), "ts": c["ts"]})
+        extra.append({"t": r.choice(["#tag ", ""]) + c["t"] + r.choice([" #end", ""]), "ts": c["ts"]})
+    return cases + extra
 
 
 def run_case(case, ctx):
